@@ -304,6 +304,26 @@ def translate(repo):
     return dict(version=tr.version, shapes=shapes, reads=tr.reads())
 
 
+SERIAL_FIXED = ("compiler", "compiler_env_script", "compiler_flags", "compiler_language", "compiler_linker_flags",
+                "compiler_shared_flags", "compiler_vendor", "kernel/include_occa", "kernel/link_occa", "mode", "okl/enabled",
+                "okl/include_paths", "okl/restrict", "okl/strict_headers", "okl/validate", "serial/include_std")
+HEADER_FIXED = ("defines", "functions", "headers", "includes")
+READS_REF = ["verbose", "compiler_language", "okl/enabled", "compiler", "compiler_flags", "compiler_shared_flags",
+             "compiler_linker_flags", "compiler_env_script", "kernel/include_occa", "kernel/link_occa", "silent", "vendor",
+             "defines", "includes", "headers", "functions", "okl/strict_headers", "okl/include_paths", "mode", "hash",
+             "okl/restrict", "okl/validate", "serial/include_std"]
+
+
+def reference(version="2.0.0"):
+    """the composition after fixes/C06-1.patch (Model.fixed_shape); used only to keep searching for a failing
+    input when the translator refuses the source"""
+    base = [("TConstVal", version), ("TConst", "host")]
+    ser = base + [("TRecord", SERIAL_FIXED), ("TRecord", HEADER_FIXED), ("TSource", None)]
+    omp = base + [("TConst", "openmp device::hash"), ("TRecord", SERIAL_FIXED), ("TConst", "openmp device::kernelHash"),
+                  ("TRecord", HEADER_FIXED), ("TSource", None)]
+    return dict(version=version, shapes={"Serial": ser, "OpenMP": omp}, reads=list(READS_REF))
+
+
 def describe(res):
     def d(ts):
         return " ^ ".join(("H{%s}" % ",".join(v) if k == "TRecord" else "H(%s)" % v if k == "TField" else
@@ -343,7 +363,7 @@ def write_coq(res, gen_dir, repo):
               "Theorem current_tree_key_injective : forall c1 c2,",
               "  dom_sepb gen_shape c1 = true -> dom_sepb gen_shape c2 = true ->",
               "  key gen_shape c1 = key gen_shape c2 -> effective c1 = effective c2.",
-              "Proof. exact (key_injective gen_shape gen_shape_good). Qed.", ""]
+              "Proof. intros c1 c2. exact (key_injective gen_shape c1 c2 gen_shape_good). Qed.", ""]
     for name, lines in (("C06_KeyFields.v", defs), ("C06_KeyChecks.v", checks)):
         p = os.path.join(gen_dir, name)
         txt = "\n".join(lines)
